@@ -1000,7 +1000,7 @@ func privateCell(v ssa.Value, depth int) bool {
 // closureCalledSynchronously: every use of the function value f is a call of
 // it, or passing it to a function that (recursively) only calls it.
 func closureCalledSynchronously(f ssa.Value, depth int) bool {
-	if depth > 3 || f.Referrers() == nil {
+	if depth > 10 || f.Referrers() == nil {
 		return false
 	}
 	for _, r := range *f.Referrers() {
@@ -1032,6 +1032,25 @@ func closureCalledSynchronously(f ssa.Value, depth int) bool {
 			}
 			for i, a := range args {
 				if a == f && !closureCalledSynchronously(params[i], depth+1) {
+					return false
+				}
+			}
+		case *ssa.Store:
+			// a parameter captured by reference is spilled into a cell of its own first (`*t0 = f`): the
+			// cell is only read to call the function, by this function and by synchronous closures
+			a, isAlloc := x.Addr.(*ssa.Alloc)
+			if x.Val != f || !isAlloc || !funcCellCalledSynchronously(a, depth+1) {
+				return false
+			}
+		case *ssa.MakeClosure:
+			// captured by a closure that itself is only called synchronously and only calls it
+			// (`m.Loop(func(_ string, mm *subscriber) { f(mm) })`)
+			fn, _ := x.Fn.(*ssa.Function)
+			if fn == nil || !closureCalledSynchronously(x, depth+1) {
+				return false
+			}
+			for i, b := range x.Bindings {
+				if b == f && (i >= len(fn.FreeVars) || !closureCalledSynchronously(fn.FreeVars[i], depth+1)) {
 					return false
 				}
 			}
@@ -1430,6 +1449,41 @@ func onlyNilTested(fa *ssa.FieldAddr) bool {
 			if !ok || (b.Op != token.EQL && b.Op != token.NEQ) || !(an.IsNilConst(b.X) || an.IsNilConst(b.Y)) {
 				return false
 			}
+		}
+	}
+	return true
+}
+
+// funcCellCalledSynchronously: cell (an Alloc, or the FreeVar a closure sees it as) holds a function
+// value; every use of the cell is the store that fills it, a load whose value is only called
+// synchronously, or its capture by a closure that is only called synchronously and treats it alike.
+func funcCellCalledSynchronously(cell ssa.Value, depth int) bool {
+	if depth > 8 || cell.Referrers() == nil {
+		return false
+	}
+	for _, r := range *cell.Referrers() {
+		switch x := r.(type) {
+		case *ssa.DebugRef:
+		case *ssa.Store:
+			if x.Addr != cell {
+				return false
+			}
+		case *ssa.UnOp:
+			if x.Op != token.MUL || !closureCalledSynchronously(x, depth+1) {
+				return false
+			}
+		case *ssa.MakeClosure:
+			fn, _ := x.Fn.(*ssa.Function)
+			if fn == nil || !closureCalledSynchronously(x, depth+1) {
+				return false
+			}
+			for i, b := range x.Bindings {
+				if b == cell && (i >= len(fn.FreeVars) || !funcCellCalledSynchronously(fn.FreeVars[i], depth+1)) {
+					return false
+				}
+			}
+		default:
+			return false
 		}
 	}
 	return true
